@@ -472,6 +472,22 @@ def run(run):
             ts = [["rewrap", w[0], w[1], d, [width] * d]]
             if tf.HYPHEN_REWRAP or all(tf.hyphen_neutral(x) for l in tf.body_lines(doc.lines, w[0], w[1]) for x in l.split()):
                 check_case(run, pend, base, ts, [base, tf.apply(base, ts)], ["all-widths"], cache)
+    # lines that cross depth steps: the whole body is one group, cut at every uniform width from 1 to all tokens on one line
+    for d, r in ((4, 6), (3, 24), (14, 3)):
+        for _try in range(20):
+            base, info = wrapped_doc(rng, d=d, r=r)
+            doc = tf.Doc(base)
+            w = doc.data_window()
+            cache = {}
+            if w is not None and readable(base, cache) and (tf.HYPHEN_REWRAP or all(
+                    tf.hyphen_neutral(x) for l in tf.body_lines(doc.lines, w[0], w[1]) for x in l.split())):
+                break
+        else:
+            raise fw.InfraError("no hyphen-neutral wrapped base document generated")
+        n = d * r
+        for width in range(1, n + 1):
+            ts = [["rewrap", w[0], w[1], n, [width] * (n // width + 1)]]
+            check_case(run, pend, base, ts, [base, tf.apply(base, ts)], ["all-widths-across-steps"], cache)
     # (2) the example corpus
     names = list(corpus_texts())
     for name, txt in names:
